@@ -158,6 +158,21 @@ def run_check(prop: str, tier: str, seed: int, replay: Optional[dict], *, profil
     rep.rule = rule
     ok_spec, log = core.coq_make(["Base/Sx.vo", "Eql/ShowSpec.vo"])
     rep.oblige("build:spec", ok_spec, "" if ok_spec else core.first_error(log))
+    # T-tie of the decision code (optimize_or, the _invert_ table, not_/and_/or_/chained_logic): regenerated from the
+    # source and proved equal to the model's smart constructors; kept apart from Props/*.v so that the evaluator model
+    # stays available for the search when this obligation breaks
+    from translator import t_symbolic
+    gen = core.COQ / "Gen" / "SymbolicDecisions.v"
+    try:
+        core.write_if_changed(gen, t_symbolic.translate(str(core.REPO)))
+        rep.oblige("regen:Gen/SymbolicDecisions.v", True, "optimize_or, _invert_ table, not_/and_/or_, chained_logic")
+        ok_dec, log = core.coq_make(["Eql/DecisionsProofs.vo"])
+        rep.oblige("proof:source-decisions (optimize_or = mk_or, invert = mk_not)", ok_dec, "" if ok_dec else core.first_error(log))
+    except Exception as e:  # noqa: translator refused
+        rep.oblige("regen:Gen/SymbolicDecisions.v", False, str(e))
+        for ext in (".v", ".vo", ".vos", ".vok", ".glob"):
+            if gen.with_suffix(ext).exists():
+                gen.with_suffix(ext).unlink()
     model_ok = core.standard_proof_steps(rep, prop, targets)
     if model_ok:
         ok_show, log = core.coq_make(["Eql/Show.vo", "Eql/ShowFrag.vo"])
@@ -165,6 +180,8 @@ def run_check(prop: str, tier: str, seed: int, replay: Optional[dict], *, profil
         model_ok = ok_show
     if not ok_spec:
         return rep.finish()
+    if model_ok and tier == "thorough":
+        core.coqchk(rep, prop)
 
     findings = core.load_findings(prop)
     open_classes = {f.cls: f for f in findings if f.kind == "open"}
